@@ -303,10 +303,76 @@ def r5_mode_suffix_tables(ctx):
     ctx.ob(bo.where, "a .gz suffix is stripped once to find the format suffix; .gz and .bam are gzip containers", ok, "", key="C03-R5|gz-suffix")
 
 
+def r6_streams_and_text_ranges(ctx):
+    """(a) every non-empty piece of a stream is written: the loops over a stream have no early exit; (b) the accessor that supplies untouched
+    columns as text on the lazy write path returns file text (never the typed/decoded column); (c) stale-shape idiom (shared with C07)."""
+    ix = ctx.index
+    f = ix.func(P, "NpBufferedWriter.write")
+    d = f.params[1]
+    loops = [n for n in body_walk(f.node) if isinstance(n, ast.For) and u(n.iter) == d]
+    ctx.floor("stream loops in NpBufferedWriter.write", len(loops), 2)
+    for lp in loops:
+        piece = lp.target.elts[-1] if isinstance(lp.target, ast.Tuple) else lp.target
+        pv = u(piece)
+        exits = [n for st in lp.body for n in walk_local(st) if isinstance(n, (ast.Break, ast.Return))]
+        ctx.ob(f.where, "a stream is written to its end: the loop over its pieces has no early exit (an empty piece in the middle does not end the stream)", not exits and not lp.orelse,
+               "; ".join(f"line {n.lineno}: {type(n).__name__.lower()}" for n in exits), key=f"C03-R6|stream-loop|{u(lp.target)}")
+        g = CFG(f.node)
+        ws = [n for n in g.nodes if n.kind == "stmt" and n.ast in list(ast.walk(lp)) and any(isinstance(c, ast.Call) and u(c.func) == "self.write" and c.args and u(c.args[0]) == pv
+                                                                                           for c in walk_local(n.ast))]
+        ok = len(ws) == 1
+        detail = ""
+        if ok:
+            tests = [sym.canon(t.ast) + ("" if lab in ("T", True) else "!") for t, lab in g.guards(ws[0]) if t.kind == "test" and t.ast in list(ast.walk(lp))]
+            allowed = {f"(0)<(len({pv}))", f"len({pv})", f"(0)!=(len({pv}))", f"(0)==(len({pv}))!", f"not(len({pv}))!"}
+            extra = [t for t in tests if t not in allowed]
+            detail = str(tests)
+            if extra:
+                raise Unrecognised(f"{f.where}: a stream piece is written under a condition the checker does not know: {extra}")
+        ctx.ob(f.where, "each piece is handed to the same writer; only empty pieces are skipped", ok, detail, key=f"C03-R6|stream-piece|{u(lp.target)}")
+    # (b)
+    OL = "bionumpy.io.one_line_buffer"
+    base = ix.cls(OL, "OneLineBuffer")
+    n = 0
+    for c in [base] + ix.subclasses(base, strict=True):
+        m = ix.lookup_method(c, "get_field_range_as_text")
+        if m is None:
+            continue
+        n += 1
+        rets = [r.value for r in body_walk(m.node) if isinstance(r, ast.Return)]
+        calls_ = [r for r in rets if isinstance(r, ast.Call)]
+        if len(rets) != 1 or len(calls_) != 1:
+            raise Unrecognised(f"{m.where}: text range accessor does not return a single call")
+        fn = u(calls_[0].func)
+        if fn == "self.get_text_field_by_number":
+            ok = bool(calls_[0].args) and u(calls_[0].args[0]) == m.params[1]
+        elif fn in ("self.get_field_by_number", "self._get_field_by_number"):
+            ok = False
+        else:
+            raise Unrecognised(f"{m.where}: text range accessor returns through `{fn}`")
+        ctx.ob(m.where, f"{c.name}: untouched columns are supplied to the writer as the file's own text (the text accessor), not through the typed column accessor "
+               "(which decodes e.g. FASTQ qualities to numbers)", ok, u(calls_[0]), key=f"C03-R6|text-range|{c.name}")
+        # every override of the typed accessor that converts a column must have a text override for the same column
+        typed = ix.lookup_method(c, "get_field_by_number")
+        text = ix.lookup_method(c, "get_text_field_by_number")
+        conv = [t for t in body_walk(typed.node) if isinstance(t, ast.If) and any(isinstance(x, ast.Call) and u(x.func).endswith(".encode") for b in t.body for x in ast.walk(b))]
+        for t in conv:
+            tt = sym.canon(t.test)
+            same = [x for x in body_walk(text.node) if isinstance(x, ast.If) and sym.canon(x.test) == tt]
+            okc = bool(same) and all(isinstance(r, ast.Return) and isinstance(r.value, ast.Call) and u(r.value.func) == "self._buffer_extractor.get_field_by_number"
+                                     for r in same[0].body if isinstance(r, ast.Return)) and any(isinstance(r, ast.Return) for r in same[0].body)
+            ctx.ob(text.where, f"{c.name}: the column that the typed accessor converts ({tt}) is served by the text accessor straight from the file bytes", okc, "",
+                   key=f"C03-R6|text-override|{c.name}|{tt}")
+    ctx.floor("line-group buffer classes with a text range accessor", n, 3)
+    from .c07 import r5_stale_shape
+    r5_stale_shape(ctx)
+
+
 RULES = [
     ("C03-R1", r1_writer_exhaustive),
     ("C03-R2", r2_header_once),
     ("C03-R3", r3_vcf_pos_plus_one),
     ("C03-R4", r4_terminators_and_wrapping),
     ("C03-R5", r5_mode_suffix_tables),
+    ("C03-R6", r6_streams_and_text_ranges),
 ]
